@@ -406,6 +406,7 @@ type simConn struct {
 	closeCh  chan struct{}
 	onWrite   func([]byte) error // sees every Write call; a non-nil error fails the write
 	onWritten func(n, total int) // how many bytes of a Write the wire accepted
+	onResult  func(err error)    // the result of every Write call
 	wdeadline time.Time
 	failRead  error
 }
@@ -450,7 +451,10 @@ func (simTimeout) Error() string   { return "sim: i/o timeout" }
 func (simTimeout) Timeout() bool   { return true }
 func (simTimeout) Temporary() bool { return true }
 
-func (c *simConn) Write(p []byte) (int, error) {
+func (c *simConn) Write(p []byte) (n int, err error) {
+	if c.onResult != nil {
+		defer func() { c.onResult(err) }()
+	}
 	// the hook sees every Write call ("handed to the connection"), also one that then fails
 	if c.onWrite != nil {
 		if err := c.onWrite(p); err != nil {
